@@ -42,6 +42,10 @@ def generate(rng, tier):
         if 2 < len(d) < 150:
             bad.append(d[: rng.randrange(1, len(d))])
             bad += G.mutations(rng, d, limit=2)
+    # a COMPLETE value followed by garbage: the parse fails after the root was finished (its storage is owned by the parser's stack slot 0)
+    for d in docs[:60 if quick else 3000]:
+        if len(d) < 400:
+            bad.append(d + rng.choice([b" x", b"]", b"}", b" 1", b",", d, b'"', b"\x00"]))
     for _ in range(300 if quick else 20000):
         seq = [rng.choice(docs if rng.random() < 0.6 else bad) for _ in range(rng.randrange(2, 6))]
         cases.append({"lines": ["parse-seq track " + " ".join(G.hx(t) for t in seq)], "cls": "parse-seq", "kind": "parse", "nontrivial": True})
